@@ -429,6 +429,10 @@ def replay_all(pid, traces, res, drv):
     layers, relevant = RELEVANT[pid]
     lines, cases = [], []
     for sc, r, trace in traces:
+        if sc.get("cancel_top") is not None:
+            # a top-level run cancelled from outside is not an event of the model: judged by the oracles only
+            res.dist["not_replayed"] = res.dist.get("not_replayed", 0) + 1
+            continue
         try:
             ids, order, A, B, diag = translate(sc, r, trace)
         except Exception:          # noqa
